@@ -66,6 +66,10 @@ func causeClass(k string) string {
 		return "eof"
 	case "cancel-master", "cancel-handler", "cancel-idle", "cancel-blocked", "cancel-late-packet":
 		return "cancel"
+	case "cancel-during-set":
+		return "cancel-during-handshake"
+	case "cancel-at-dial":
+		return "cancel-at-dial"
 	case "err":
 		return "master-err"
 	case "fin", "rst", "zerolen", "badseq", "read-error", "fin-blocked", "rst-blocked":
